@@ -188,6 +188,19 @@ pub fn get(prop: &str, tier: &str) -> Option<Check> {
             ],
             assumptions: vec!["atomicity under real thread pre-emption is decided by the shuttle engine batch (see DESIGN.md); in the single-threaded simulation a transaction runs to completion under the handler mutex"],
         },
+        "C20" => Check {
+            prop: "C20",
+            rule_text: "each run replays one tape of the C01/C02/C05, C06/C17, C03 and C04/C10-C14 workloads three times on the canonical schedule (FIFO ready queue, select! start 0, whole reads/writes): at DecodeLevel::nothing(), at (DataValues, Payload, Data), and with a run-time level change (client: set_decode_level on a handle; server: ServerHandle::set_decode_level) injected before action k (k and the level derived from the tape, k in 0..24, so positions while a transaction is outstanding are covered); the harness subscriber formats every log line in all runs; observable = all wire bytes in both directions with their virtual instants, every request result and completion instant, listener states, handler journals: must be byte-identical. Distinct = base workload hash x injection position.",
+            batches: vec![
+                Batch { name: "paired_server_tcp", f: scen::paired::server_tcp, cfg: cfg(Mode::LockStep, false, 0), runs: n(20_000, 600_000), real: REAL_SERVER_TCP, stub: STUB_SERVER_TCP },
+                Batch { name: "paired_client_tcp", f: scen::paired::client_tcp, cfg: cfg(Mode::LockStep, false, 0), runs: n(30_000, 800_000), real: REAL_CLIENT_TCP, stub: STUB_CLIENT_TCP },
+                Batch { name: "paired_rtu_server", f: scen::paired::rtu_server, cfg: cfg(Mode::LockStep, false, 0), runs: n(15_000, 400_000), real: REAL_SERVER_RTU, stub: STUB_SERVER_RTU },
+                Batch { name: "paired_client_rtu", f: scen::paired::client_rtu, cfg: cfg(Mode::LockStep, false, 0), runs: n(15_000, 400_000), real: REAL_CLIENT_RTU, stub: STUB_CLIENT_RTU },
+                Batch { name: "paired_server_chunking", f: scen::paired::server_chunking, cfg: cfg(Mode::LockStep, false, 0), runs: n(10_000, 300_000), real: REAL_SERVER_TCP, stub: STUB_SERVER_TCP },
+                Batch { name: "paired_client_encoding", f: scen::paired::client_encoding, cfg: cfg(Mode::LockStep, false, 0), runs: n(10_000, 300_000), real: REAL_CLIENT_TCP, stub: STUB_CLIENT_TCP },
+            ],
+            assumptions: vec!["paired runs use the canonical schedule so that the extra queued command of a level change cannot shift unrelated scheduling decisions"],
+        },
         "C18" => Check {
             prop: "C18",
             rule_text: "ffi client",
